@@ -9,7 +9,8 @@ res = open(f"{resdir}/{pid}-{m}.txt").read()
 keep_m = "m%d" % (int(m[1:]) + int(os.environ.get("SEED_OFFSET", "0")))
 if "CONFIRMED" not in res or "NOT-CONFIRMED" in res:
     print("not confirmed:", pid, m); sys.exit(1)
-dst = f"/verif/seeded/{pid}-{keep_m}"
+prop = os.environ.get("SEED_PROP", pid)  # third round: the unit is a file group, the property comes from notes.md
+dst = "/verif/seeded/" + os.environ.get("SEED_KEEP_AS", f"{pid}-{keep_m}")
 os.makedirs(dst, exist_ok=True)
 for f in ("patch.diff", "demo.rs", "notes.md"):
     if os.path.exists(f"{src}/{f}"):
@@ -37,7 +38,7 @@ for k, v in extra.get("caught_after_strengthening", {}).items():
 notes = open(f"{dst}/notes.md").read() if os.path.exists(f"{dst}/notes.md") else ""
 first = [l for l in notes.splitlines() if l.strip() and not l.startswith("#")]
 meta = {
-    "breaks_property": pid,
+    "breaks_property": prop,
     "origin": "independent sub-agent given only the property text and its own scratch worktree (no access to /verif)",
     "needs_to_manifest": extra.get("needs") or (first[0][:600] if first else ""),
     "demo": {"file": "demo.rs", "crate_dir": crate, "how": f"copy to <repo>/{crate}/tests/seed_demo.rs; cargo test -p <crate package> --test seed_demo --offline: passes without patch.diff, fails with it"},
